@@ -42,7 +42,12 @@ def run(ctx):
     ctx.rule("K6", "pipeline alignment: every def-use path from a code word's own inputs (d, k / input) to the outputs computed from "
                    "it crosses exactly one register stage -- a flag read from the input port in the output stage belongs to the NEXT "
                    "symbol (K flip applied one symbol late); the incoming disparity is used in the output stage only", min_sites=8)
+    ctx.rule("K7", "the decode tables invert the encode tables: the module-level table construction (reverse_table / reverse_table_flip and "
+                   "the patch statements) is evaluated by the checker's interpreter and every code word the 5b/6b and 3b/4b encoders can "
+                   "emit -- primary, complemented when the entry may flip, K.28 and the alternate x.7 codes -- decodes to its index; "
+                   "the K.x.y 4b tables decode both disparities", min_sites=6)
     ctx.rule("PRIO", "no dead driver", min_sites=1)
+    _k7(ctx)
 
     m = ctx.mod(F)
     _k5(ctx)
@@ -362,3 +367,57 @@ def _idx(a):
             if "[" in t:
                 return t[t.index("[") + 1:t.index("]")]
     return "?"
+
+
+def _k7(ctx):
+    from .. import pyconst
+    m = ctx.mod(F)
+    it = pyconst.Interp({}, exact=True, funcs={f.name: f for f in m.tree.body if isinstance(f, ast.FunctionDef)})
+    try:
+        it.run([st for st in m.tree.body if isinstance(st, (ast.Assign, ast.AugAssign, ast.For, ast.If))])
+    except pyconst.Raised as ex:
+        # the module's own consistency check (two code words claim one decode slot) fires: the tables are not invertible
+        ctx.ob("K7", F, "<tables>", "all eight tables are compile-time constants of the expected size", False,
+               f"the module-level table construction raises ({ex}): two code words collide in a decode table")
+        return
+    except Exception as ex:     # noqa
+        ctx.need(False, f"{F}: the module-level table construction cannot be interpreted ({type(ex).__name__}: {ex})")
+    T = {k: it.env.get(k) for k in ("table_5b6b", "table_5b6b_flip", "table_6b5b", "table_3b4b", "table_3b4b_flip", "table_4b3b",
+                                    "table_4b3b_kn", "table_4b3b_kp")}
+    sizes = {"table_5b6b": 32, "table_5b6b_flip": 32, "table_6b5b": 64, "table_3b4b": 8, "table_3b4b_flip": 8, "table_4b3b": 16,
+             "table_4b3b_kn": 16, "table_4b3b_kp": 16}
+    okt = all(isinstance(T[k], list) and len(T[k]) == n and all(isinstance(x, (int, bool)) for x in T[k]) for k, n in sizes.items())
+    ctx.ob("K7", F, "<tables>", "all eight tables are compile-time constants of the expected size", okt,
+           "" if okt else f"{ {k: (len(v) if isinstance(v, list) else v) for k, v in T.items()} }")
+    if not okt:
+        return
+    bad = None
+    for x in range(32):
+        c = T["table_5b6b"][x]
+        if T["table_6b5b"][c] != x:
+            bad = bad or f"D.{x}: 6b code {c:06b} decodes to {T['table_6b5b'][c]}"
+        if T["table_5b6b_flip"][x] and T["table_6b5b"][~c & 63] != x:
+            bad = bad or f"D.{x}: complemented 6b code {~c & 63:06b} decodes to {T['table_6b5b'][~c & 63]}"
+    ctx.ob("K7", F, "table_6b5b", "every 5b/6b code word (and its complement when it may flip) decodes to its index", bad is None, bad or "")
+    ok = T["table_6b5b"][0b001111] == 28 and T["table_6b5b"][0b110000] == 28
+    ctx.ob("K7", F, "table_6b5b", "K.28 (001111 / 110000) decodes to 28", ok, "" if ok else f"{T['table_6b5b'][0b001111]}, {T['table_6b5b'][0b110000]}")
+    bad = None
+    for y in range(8):
+        c = T["table_3b4b"][y]
+        if T["table_4b3b"][c] != y:
+            bad = bad or f"D.x.{y}: 4b code {c:04b} decodes to {T['table_4b3b'][c]}"
+        if T["table_3b4b_flip"][y] and T["table_4b3b"][~c & 15] != y:
+            bad = bad or f"D.x.{y}: complemented 4b code {~c & 15:04b} decodes to {T['table_4b3b'][~c & 15]}"
+    ctx.ob("K7", F, "table_4b3b", "every 3b/4b code word (and its complement when it may flip) decodes to its index", bad is None, bad or "")
+    ok = T["table_4b3b"][0b0111] == 7 and T["table_4b3b"][0b1000] == 7
+    ctx.ob("K7", F, "table_4b3b", "alternate D.x.A7 (0111 / 1000) decodes to 7", ok, "" if ok else f"{T['table_4b3b'][0b0111]}, {T['table_4b3b'][0b1000]}")
+    bad = None
+    for y in range(7):
+        c = T["table_3b4b"][y]
+        if T["table_4b3b_kn"][c] != y:
+            bad = bad or f"K.x.{y}: 4b code {c:04b} decodes to {T['table_4b3b_kn'][c]} in table_4b3b_kn"
+        if T["table_4b3b_kp"][~c & 15] != y:
+            bad = bad or f"K.x.{y}: 4b code {~c & 15:04b} decodes to {T['table_4b3b_kp'][~c & 15]} in table_4b3b_kp"
+    if T["table_4b3b_kn"][0b1000] != 7 or T["table_4b3b_kp"][0b0111] != 7:
+        bad = bad or f"K.x.7: kn[1000] = {T['table_4b3b_kn'][0b1000]}, kp[0111] = {T['table_4b3b_kp'][0b0111]}"
+    ctx.ob("K7", F, "table_4b3b_kn/kp", "control symbols: both disparities of every K.x.y 4b code decode to y", bad is None, bad or "")
